@@ -27,7 +27,9 @@ Calls == <<
   [fn |-> "mtl", losses |-> <<L1, L2>>, feats |-> <<F>>, tparams |-> <<{T1}, {T2}>>, shared |-> {A, Bb}, w |-> <<1, -2>>],
   [fn |-> "mtl", losses |-> <<L1, L2>>, feats |-> <<F>>, tparams |-> <<{T1}, {T1, T2}>>, shared |-> {A}, w |-> <<3, 1>>],
   [fn |-> "mtl", losses |-> <<L3, L2>>, feats |-> <<F>>, tparams |-> <<{T1, U1, U2}, {T2}>>, shared |-> {A, Bb}, w |-> <<-1, 2>>],
-  [fn |-> "backward", tensors |-> <<L3>>, inputs |-> {U1, U2, A}, w |-> <<3>>] >>
+  [fn |-> "backward", tensors |-> <<L3>>, inputs |-> {U1, U2, A}, w |-> <<3>>],
+  \* a frozen trunk: no shared parameter at all, only the heads are updated
+  [fn |-> "mtl", losses |-> <<L1, L2>>, feats |-> <<F>>, tparams |-> <<{T1}, {T2}>>, shared |-> {}, w |-> <<1, 1>>] >>
 EditLeaves == {A, T1, C}
 
 Requested(c) == IF c.fn = "backward" THEN c.inputs
